@@ -552,19 +552,49 @@ class Unit:
             fn = Function(self.name, f)
             self.functions[fn.name] = fn
 
-    def macro_int(self, name):
+    def macro_int(self, name, _depth=0):
+        """value of an object-like macro whose body is an integer constant expression (literals, other such
+        macros, + - * / % << >> & | ^ ~, parentheses, sizeof is not supported)"""
+        import ast, re
         m = self.macros.get(name)
-        if not m or m.get('fn'):
+        if not m or m.get('fn') or _depth > 6:
             return None
-        body = m['body'].replace('(', ' ').replace(')', ' ').split()
+        toks = m['body'].split()
+        out = []
+        for t in toks:
+            if re.fullmatch(r"(0[xX][0-9a-fA-F]+|\d+)[uUlL]*", t):
+                t = re.sub(r'[uUlL]+$', '', t)
+                if len(t) > 1 and t[0] == '0' and t[1] not in 'xX':
+                    t = '0o' + t[1:]
+                out.append(t)
+            elif re.fullmatch(r"'(\\.|[^'\\])'", t):
+                body = t[1:-1]
+                esc = {'\\n': 10, '\\r': 13, '\\t': 9, '\\0': 0, '\\\\': 92, "\\'": 39}
+                out.append(str(esc.get(body, ord(body[-1]))))
+            elif re.fullmatch(r'[A-Za-z_]\w*', t):
+                v = self.macro_int(t, _depth + 1)
+                if v is None:
+                    return None
+                out.append('(%d)' % v)
+            elif t in ('+', '-', '*', '%', '<<', '>>', '&', '|', '^', '~', '(', ')'):
+                out.append(t)
+            elif t == '/':
+                out.append('//')
+            else:
+                return None
         try:
-            if len(body) == 1:
-                return int(body[0].rstrip('uUlL'), 0)
-            if len(body) == 2 and body[0] == '-':
-                return -int(body[1].rstrip('uUlL'), 0)
-        except ValueError:
+            tree = ast.parse(' '.join(out), mode='eval')
+        except SyntaxError:
             return None
-        return None
+        for node in ast.walk(tree):
+            if not isinstance(node, (ast.Expression, ast.BinOp, ast.UnaryOp, ast.Constant, ast.operator, ast.unaryop)):
+                return None
+            if isinstance(node, ast.Constant) and not isinstance(node.value, int):
+                return None
+        try:
+            return int(eval(compile(tree, '<macro>', 'eval'), {'__builtins__': {}}, {}))
+        except Exception:
+            return None
 
 
 def parse_makefile(path):
